@@ -154,13 +154,23 @@ def to_number(value: JSValue) -> Union[int, float]:
             return float("-inf") if s.startswith("-") else float("inf")
         if "." in s or "e" in s or "E" in s:
             return float(s)
-        n = int(s)
-        if n == 0 and s.startswith("-"):
-            return -0.0  # "-0": a host int has no negative zero
-        # Integers beyond 2**53 are rounded to a double, beyond its range infinite
-        return js_number(n)
+        return decimal_integer(s)
     # TODO: Handle objects with valueOf
     return float("nan")
+
+
+def decimal_integer(digits: str) -> Union[int, float]:
+    """The Number that a run of decimal digits, with an optional sign, denotes.
+
+    It is read as a double, which rounds correctly and is infinite beyond the
+    double range whatever the length of the text (int() keeps every digit, and
+    refuses text of more than 4300 of them). "-0" is the negative zero, which
+    a host int cannot hold.
+    """
+    value = float(digits)
+    if value == 0 and digits.startswith("-"):
+        return -0.0
+    return int(value) if abs(value) <= 2**53 else value
 
 
 def js_number(n: Union[int, float]) -> Union[int, float]:
@@ -212,7 +222,9 @@ def array_index(key: str) -> Optional[int]:
     which int() accepts) are ordinary property names.
     """
     if key.isascii() and key.isdigit() and (key == "0" or key[0] != "0"):
-        return int(key)
+        # 20 digits are beyond every length there is (and int() refuses text
+        # of more than 4300 digits)
+        return int(key) if len(key) <= 20 else 10**20
     return None
 
 
